@@ -11,23 +11,40 @@ EXTENDS Lzhuf, Json, IOUtils
 Jobs  == ndJsonDeserialize(IOEnv.JOBS)
 NJobs == Len(Jobs)
 
-VARIABLES j, dst, est, tk, fin
-vars == <<j, dst, est, tk, fin>>
+(* Long decodes: the decoder only ever looks back N bytes, so the output is kept as a sliding suffix.  Whenever it has   *)
+(* grown to KEEP + SLACK bytes, all but the last KEEP (>= N + F) are compared with the expected plaintext and dropped;    *)
+(* base counts the dropped bytes, ok says that every dropped byte was the expected one.  (Before the first drop the       *)
+(* output is complete, so the initial-window rule of WinAt, which depends on absolute positions, is unaffected; after it  *)
+(* more than N bytes precede the cursor and the rule can no longer apply.)  This makes a decode linear in its length.     *)
+KEEP  == 4096
+SLACK == 4096
+ASSUME KEEP >= N + F
 
-Init == /\ j \in 1..NJobs /\ dst = DecInit /\ est = EncInit /\ tk = 1 /\ fin = FALSE
+VARIABLES j, dst, base, ok, est, tk, fin
+vars == <<j, dst, base, ok, est, tk, fin>>
+
+Init == /\ j \in 1..NJobs /\ dst = DecInit /\ base = 0 /\ ok = TRUE /\ est = EncInit /\ tk = 1 /\ fin = FALSE
 
 Bits(job) == FromBytes(job.payload)
+OutLen == base + Len(dst.o)
 
 DecStep ==
     /\ ~fin /\ Jobs[j].kind = "dec"
-    /\ Len(dst.o) < Jobs[j].size /\ Len(dst.o) < Jobs[j].limit
-    /\ dst' = DecodeStep(dst, Bits(Jobs[j]))
+    /\ OutLen < Jobs[j].size /\ OutLen < Jobs[j].limit
+    /\ LET nd == DecodeStep(dst, Bits(Jobs[j])) IN
+       IF Len(nd.o) >= KEEP + SLACK
+         THEN LET drop == Len(nd.o) - KEEP
+                  exp  == Jobs[j].expect
+              IN /\ ok' = (ok /\ base + drop <= Len(exp) /\ SubSeq(nd.o, 1, drop) = SubSeq(exp, base + 1, base + drop))
+                 /\ dst' = [nd EXCEPT !.o = SubSeq(nd.o, drop + 1, Len(nd.o))]
+                 /\ base' = base + drop
+         ELSE dst' = nd /\ UNCHANGED <<base, ok>>
     /\ UNCHANGED <<j, est, tk, fin>>
 
 DecDone ==
     /\ ~fin /\ Jobs[j].kind = "dec"
-    /\ ~(Len(dst.o) < Jobs[j].size /\ Len(dst.o) < Jobs[j].limit)
-    /\ fin' = TRUE /\ UNCHANGED <<j, dst, est, tk>>
+    /\ ~(OutLen < Jobs[j].size /\ OutLen < Jobs[j].limit)
+    /\ fin' = TRUE /\ UNCHANGED <<j, dst, base, ok, est, tk>>
 
 Tok(job, n) == job.tokens[n]      \* <<0, c>> literal c | <<1, d, len>> match
 
@@ -40,11 +57,11 @@ EncStep ==
          ELSE /\ t[3] \in (THRESHOLD + 1)..F /\ t[2] \in 1..N
               /\ Matches(inp, est.i, t[2], t[3])                       \* the match must reproduce the input
               /\ est' = EncMatch(est, t[2], t[3])
-    /\ tk' = tk + 1 /\ UNCHANGED <<j, dst, fin>>
+    /\ tk' = tk + 1 /\ UNCHANGED <<j, dst, base, ok, fin>>
 
 EncDone ==
     /\ ~fin /\ Jobs[j].kind = "enc" /\ tk > Len(Jobs[j].tokens)
-    /\ fin' = TRUE /\ UNCHANGED <<j, dst, est, tk>>
+    /\ fin' = TRUE /\ UNCHANGED <<j, dst, base, ok, est, tk>>
 
 Next == DecStep \/ DecDone \/ EncStep \/ EncDone
 Spec == Init /\ [][Next]_vars
@@ -53,8 +70,9 @@ Spec == Init /\ [][Next]_vars
 Emit ==
     fin => IF Jobs[j].kind = "dec"
              THEN PrintT(ToJson([result |-> Jobs[j].id,
-                                 equal  |-> (dst.o = Jobs[j].expect),
-                                 outlen |-> Len(dst.o),
+                                 equal  |-> (/\ ok /\ OutLen = Len(Jobs[j].expect)
+                                             /\ dst.o = SubSeq(Jobs[j].expect, base + 1, Len(Jobs[j].expect))),
+                                 outlen |-> OutLen,
                                  bits   |-> dst.k - 1,
                                  nbits  |-> 8 * Len(Jobs[j].payload)]))
              ELSE PrintT(ToJson([result |-> Jobs[j].id,
